@@ -493,11 +493,14 @@ func runC11(c *engine.Ctx) {
 	// ---- R7 ----
 	c.Rule("R7", "where an accepted connection is handed to a listener through errors.PanicToError(send), a failed hand-off closes that connection")
 	n := 0
-	for _, sym := range []string{"server/group.TCPGroup.worker", "server/group.TCPMuxGroup.worker", "pkg/util/vhost.Muxer.handle"} {
-		f := fn(c, sym)
-		if f == nil {
+	// every function (or goroutine closure) of the group and vhost packages that hands a connection over through a
+	// recover-protected send (found by that shape: the workers may be methods or closures)
+	for _, f := range c.P.RepoFuncs() {
+		if f.Pkg == nil || !(strings.HasSuffix(f.Pkg.Pkg.Path(), "/server/group") || strings.HasSuffix(f.Pkg.Pkg.Path(), "/pkg/util/vhost")) {
 			continue
 		}
+		f := f
+		sym := c.P.FuncName(f)
 		engine.ForEachInstr(f, func(in ssa.Instruction) {
 			call, ok := in.(*ssa.Call)
 			if !ok {
